@@ -4,6 +4,7 @@
    Render.unroll the manual unrolling of an abstract program. *)
 From GM Require Import Base Text Token Lexer Scanner ExprSpec ExprEval ForExpand Parser Compile Sim Prog Meaning Render AsmSpec
      C05Lexer C05Expander C08Proof.
+From Coq Require Import Lia.
 Open Scope N_scope.
 
 (* the property at full strength, on the model: a program and its unrolling assemble alike *)
@@ -35,38 +36,84 @@ Proof.
 Qed.
 Print Assumptions C08_body_count_times_partial.
 
-(* from the ROF line on, whatever the state reached: the unrolled body is sent, then the rest of the
-   program is copied unchanged up to the end-of-file token *)
+(* from the ROF line on, whatever the state reached: the block is sent - the first iteration with the labels
+   written before the counter standing in front of the body line found for them, then iterations 2 .. count;
+   with a count below one only those labels - and then the rest of the program is copied unchanged up to the
+   end-of-file token *)
 Theorem C08_rof_phase_partial :
   forall symbols n f f' skip rest e junk,
     Forall (fun t => nonterm t /\ t_typ t <> tokNewline) skip -> Forall nonterm rest -> t_typ e = tokEOF ->
     f_rd f = rd_at (skip ++ mkT tokNewline [] :: rest ++ e :: junk) ->
     for_run symbols n FRof f = Some f' ->
     f_out f' = f_out f
-               ++ flat_map (fun j => map (subst_body (f_count_label f) (f_line_labels f) j) (f_content f))
-                           (nseq 1 (Z.to_nat (f_count f)))
+               ++ emit_body (Z.to_nat (f_count f)) (f_labels_at f) (f_count_label f) (f_line_labels f) (f_content f)
                ++ rest.
 Proof. exact rof_phase. Qed.
 Print Assumptions C08_rof_phase_partial.
 
-(* the FOR line: the count is the value of its expression over the EQU symbols of the pre-scan; the name just
-   before FOR is the counter, the names before it are block labels; these are renamed and sent exactly once,
-   immediately before the first instruction the block emits *)
+(* a ROF on the last line of the input, without a newline, closes its block all the same (D28) *)
+Theorem C08_rof_at_end_of_input_partial :
+  forall symbols n f f' skip e junk,
+    Forall (fun t => nonterm t /\ t_typ t <> tokNewline) skip -> t_typ e = tokEOF ->
+    f_rd f = rd_at (skip ++ e :: junk) ->
+    for_run symbols n FRof f = Some f' ->
+    f_out f' = f_out f
+               ++ emit_body (Z.to_nat (f_count f)) (f_labels_at f) (f_count_label f) (f_line_labels f) (f_content f).
+Proof. exact rof_phase_eof. Qed.
+Print Assumptions C08_rof_at_end_of_input_partial.
+
+(* what is sent for the block: without block labels the body written out count times; with block labels the
+   same, the labels standing in front of token number a of the first iteration; iterations 2.. are plain *)
+Theorem C08_block_shape_partial :
+  (forall n cl body, emit_body n None cl [] body = flat_map (fun j => map (subst_body cl [] j) body) (nseq 1 n)) /\
+  (forall n at_ cl ll body,
+     emit_body (S n) at_ cl ll body =
+     emit_first 0 at_ (map (mkT tokText) ll) cl ll body ++ flat_map (fun j => map (subst_body cl ll j) body) (nseq 2 n)) /\
+  (forall cl ll labs body a, (a < length body)%nat ->
+     emit_first 0 (Some a) labs cl ll body =
+     map (subst_body cl ll 1) (firstn a body) ++ labs ++ map (subst_body cl ll 1) (skipn a body)) /\
+  (forall cl ll labs body, emit_first 0 None labs cl ll body = map (subst_body cl ll 1) body).
+Proof.
+  split; [exact emit_body_plain|]. split; [exact emit_body_unroll|]. split.
+  - intros cl ll labs body a H. rewrite (emit_first_at cl ll labs body 0 a) by lia.
+    replace (a - 0)%nat with a by lia. reflexivity.
+  - intros. apply emit_first_none.
+Qed.
+Print Assumptions C08_block_shape_partial.
+
+(* the FOR line: the count is the value of its expression over the EQU symbols of the pre-scan and the
+   predefined constants; the name just before FOR is the counter, the names before it are block labels.
+   Their place is the first line of the body itself that is an instruction (D30: not an EQU line) or the
+   header of a nested block (whose labels they then become); a colon after a body label is dropped (D29) *)
 Theorem C08_block_labels_partial :
   (forall symbols f v,
      expand_and_evaluate (f_expr f) symbols = Some (EOk v) ->
      exists f1, for_step symbols FFor f = Some (f1, Some FInnerLine) /\
        f_count f1 = v /\ f_count_label f1 = last (f_labels f) [] /\ f_line_labels f1 = init_list (f_labels f) /\
-       f_to_write f1 = Some (init_list (f_labels f)) /\
+       f_labels_at f1 = None /\
        f_content f1 = [] /\ f_out f1 = f_out f /\ f_rd f1 = f_rd f) /\
-  (forall symbols f ls,
-     t_typ (f_nt f) = tokText -> tok_is_pseudo (f_nt f) = false -> tok_is_op (f_nt f) = true -> f_to_write f = Some ls ->
-     exists f1, for_step symbols FInnerLabels f = Some (f1, Some FInnerEmitLabels) /\
-       f_out f1 = f_out f ++ map (mkT tokText) ls /\ f_to_write f1 = None /\ f_rd f1 = f_rd f /\ f_content f1 = f_content f) /\
   (forall symbols f,
-     t_typ (f_nt f) = tokText -> tok_is_pseudo (f_nt f) = false -> tok_is_op (f_nt f) = true -> f_to_write f = None ->
-     for_step symbols FInnerLabels f = Some (f, Some FInnerEmitLabels)).
-Proof. split; [exact step_for|]. split; [exact step_block_labels|exact step_block_labels_done]. Qed.
+     t_typ (f_nt f) = tokText -> tok_is_pseudo (f_nt f) = false -> tok_is_op (f_nt f) = true ->
+     f_depth f = O -> f_labels_at f = None ->
+     exists f1, for_step symbols FInnerLabels f = Some (f1, Some FInnerEmitLabels) /\
+       f_labels_at f1 = Some (length (f_content f)) /\
+       f_out f1 = f_out f /\ f_rd f1 = f_rd f /\ f_content f1 = f_content f /\ f_labels f1 = f_labels f) /\
+  (forall symbols f,
+     t_typ (f_nt f) = tokText -> lower_is (t_val (f_nt f)) "for" = true ->
+     f_depth f = O -> f_labels_at f = None ->
+     exists f1, for_step symbols FInnerLabels f = Some (f1, Some FInnerEmitLabels) /\
+       f_labels_at f1 = Some (length (f_content f)) /\ f_depth f1 = 1%nat /\
+       f_out f1 = f_out f /\ f_rd f1 = f_rd f /\ f_content f1 = f_content f /\ f_labels f1 = f_labels f) /\
+  (forall symbols f,
+     t_typ (f_nt f) = tokText -> tok_is_pseudo (f_nt f) = false -> tok_is_op (f_nt f) = true ->
+     (f_depth f <> O \/ f_labels_at f <> None) ->
+     for_step symbols FInnerLabels f = Some (f, Some FInnerEmitLabels)) /\
+  (forall symbols f,
+     t_typ (f_nt f) = tokColon -> for_step symbols FInnerLabels f = Some (f_next f, Some FInnerLabels)).
+Proof.
+  split; [exact step_for|]. split; [exact step_block_labels|]. split; [exact step_block_labels_nested|].
+  split; [exact step_block_labels_done|exact step_inner_colon].
+Qed.
 Print Assumptions C08_block_labels_partial.
 
 (* missing: the collection of the body (forInnerLine .. forInnerEmitConsumeLine with nesting depth), the copying
